@@ -198,6 +198,11 @@ class Interpolation(object):
         [12, 5, -8]
         """
 
+        # If the input is another Interpolation object, read its tables before
+        # cleaning up: It may be this very object
+        other = None
+        if len(args) == 1 and isinstance(args[0], Interpolation):
+            other = (args[0]._x, args[0]._y, args[0]._table, args[0]._tol)
         # Clean up the internal data tables
         self._x = []
         self._y = []
@@ -208,10 +213,7 @@ class Interpolation(object):
         # If we have only one argument, it can be a single value or tuple/list
         elif len(args) == 1:
             if isinstance(args[0], Interpolation):  # Copy constructor
-                self._x = args[0]._x
-                self._y = args[0]._y
-                self._table = args[0]._table
-                self._tol = args[0]._tol
+                self._x, self._y, self._table, self._tol = other
                 return
             elif isinstance(args[0], (int, float, Angle)):
                 # Insuficient data to interpolate. Raise ValueError exception
